@@ -58,6 +58,18 @@ def driver(chk, n):
             ver.append({"e": "RpVerify", "in": m})
     return chk.record(ver, "std")
 
+def replay(chk, path):
+    """re-execute the records of a violation file on the named build and let TLC decide them again"""
+    import vlib
+    recs = vlib.read_ndjson(path)
+    variant = recs[0].get("variant", "std") if recs and recs[0].get("e") == "Build" else "std"
+    recs = [r for r in recs if r.get("e") != "Build"]
+    chk.label_of = label
+    chk.groups = ["rangeproof"]
+    chk.build([variant])
+    chk.validate(chk.record(recs, variant), MODULE, TRACE[1], "replay", variant)
+    return chk.finish(LEVEL, "replay of " + path, [])
+
 def run(chk):
     quick = chk.tier == "quick"
     chk.label_of = label
